@@ -16,6 +16,28 @@ pub fn check_case(ctx: &mut Ctx, ps: &mut Parsers, case: &Case) {
         ctx.count("panic_in_parse_metadata(C03)");
         return;
     };
+    // the same comparison with a caller's validator that drops every key beginning with `_` (both entry points take options)
+    {
+        use cooklang::analysis::{CheckResult, ParseOptions};
+        let opts = || ParseOptions {
+            recipe_ref_check: None,
+            metadata_validator: Some(Box::new(|k: &serde_yaml::Value, _v: &serde_yaml::Value, o: &mut cooklang::analysis::CheckOptions| {
+                if k.as_str().is_some_and(|k| k.starts_with('_')) {
+                    o.include(false);
+                }
+                CheckResult::Ok
+            })),
+        };
+        if let (Ok(f2), Ok(m2)) = (crate::core::guarded(|| parser.parse_with_options(input, opts())), crate::core::guarded(|| parser.parse_metadata_with_options(input, opts()))) {
+            if let (Some(r), Some(m)) = (f2.output(), m2.output()) {
+                if r.metadata != *m {
+                    ctx.violation(case, "metadata_equal", "with_validator", format!("with a validator dropping `_` keys: parse -> {}  parse_metadata -> {}", serde_json::to_string(&r.metadata).unwrap_or_default(), serde_json::to_string(m).unwrap_or_default()));
+                } else {
+                    ctx.count("both_have_output_with_validator");
+                }
+            }
+        }
+    }
     match (full.output(), meta.output()) {
         (Some(r), Some(m)) => {
             ctx.count("both_have_output");
@@ -48,7 +70,7 @@ const META_RICH: &[&str] = &[
 const LINES: &[&str] = &[
     ">> k: v\n", ">> [mode]: steps\n", ">> [lang]: es\n", ">> [duplicate]: ref\n", ">> [mode]: text\n", "  >> k2: v\n", "\t>> k3: v\n",
     ">> servings: 2\n", ">> time: 1h\n", "step @a{1}\n", "\n", "-- c\n", "[- c -]\n", "= sec\n", "> para\n", ">> k: v2", ">> k:\n", ">>: v\n",
-    "text >> k4: v\n", ">> a: b: c\n", ">> k: v -- c\n", ">> k [- c -]: v\n", ">> k5: v\r\n", "  \n", ">> []: leftover\n", ">> draft\n", ">> [ mode ]: steps\n",
+    "text >> k4: v\n", ">> a: b: c\n", ">> k: v -- c\n", ">> k [- c -]: v\n", ">> k5: v\r\n", "  \n", ">> []: leftover\n", ">> draft\n", ">> [ mode ]: steps\n", ">> [mode]: components\n", "* * *\n\n", "Use @@tomato sauce{} here\n", ">> _internal: 42\n",
 ];
 const HEADS: &[&str] = &["", "---\ntitle: x\n---\n", "---\ntitle: x\nservings: 3\n---\n\n", "\n---\nt: 1\n---\n", "\u{feff}", "\u{feff}---\ntitle: x\n---\n"];
 
